@@ -2,7 +2,8 @@
 import ast, itertools
 from sa.core import norm, body_walk, dotted, names_in
 from sa.cfg import CFG, facts_at
-from sa.poly import P, TermBuilder, Unsupported
+from sa.poly import P, TermBuilder, Unsupported, as_p
+from sa.peval import PE
 from sa.report import Incomplete
 from sa.rules_engine import eval_bool
 from sa.rules_template import bind_call
@@ -19,9 +20,9 @@ def _stmt_of(f, node):
 def check(model, R, tier):
     R.rule('C13.DROP-EVAL', 'in eval mode Dropout.forward returns its argument itself, before any random draw or op', floor=1)
     R.rule('C13.DROP-TRAIN', 'training: one draw of shape x.shape from the global generator; keep iff draw > p (zero with probability p); survivors scaled by 1/(1-p) under p < 1; result = x * mask through the mul op, mask not requiring grad', floor=5)
-    R.rule('C13.BN-CHOICE', 'over all 8 valuations of (training, track_running_stats, buffers present): running statistics are used iff not training and buffers present; they are updated iff training and tracking (layer + functional + kernel composed)', floor=2)
-    R.rule('C13.BN-ONCE', 'num_batches_tracked += 1 exactly once per forward on exactly the path training and track_running_stats; averaging factor = momentum, or 1/num_batches_tracked (after the increment) when momentum is None', floor=3)
-    R.rule('C13.BN-UPDATE', 'running stats are written only under `training`, as stat*f + running*(1-f) with the unbiased variance var*n/(n-1), into fresh arrays; the wrapper writes both back once from the kernel results', floor=5)
+    R.rule('C13.BN-CHOICE', 'over all 8 valuations of (training, track_running_stats, buffers present): running statistics are used iff not training and buffers present; they are updated iff training and tracking (layer + functional + kernel composed by partial evaluation; output term compared)', floor=2)
+    R.rule('C13.BN-ONCE', 'num_batches_tracked += 1 exactly once per forward on exactly the path training and track_running_stats; averaging factor = momentum, or 1/num_batches_tracked (after the increment) when momentum is None', floor=2)
+    R.rule('C13.BN-UPDATE', 'running stats are written only under `training`, as stat*f + running*(1-f) with the unbiased variance var*n/(n-1), into fresh arrays; the wrapper writes both back once from the kernel results', floor=2)
     R.rule('C13.MODE-SOURCE', 'Dropout and BatchNorm read only self.training for the mode', floor=2)
     check_dropout(model, R)
     check_bn(model, R)
@@ -37,76 +38,64 @@ def check(model, R, tier):
 
 
 def check_dropout(model, R):
+    """Dropout.forward partially evaluated under (training, p < 1): the returned term is compared with x * keep/(1-p)"""
     f = model.func(LMOD + '.Dropout.forward')
     x = f.pos_params[1]
-    cfg = CFG(f.node)
-    first = [s for s in f.node.body if not (isinstance(s, ast.Expr) and isinstance(s.value, ast.Constant))][0]
-    ok = isinstance(first, ast.If) and norm(first.test) == 'not self.training' and len(first.body) == 1 and isinstance(first.body[0], ast.Return) and norm(first.body[0].value) == x and not first.orelse
-    R.ob('C13.DROP-EVAL', f.qualname, norm(first)[:60], ok, 'eval mode must return the input unchanged as the very first action (no draw, no op, deterministic)', f.loc)
-    draws = [c for c in ast.walk(f.node) if isinstance(c, ast.Call) and (model.resolve(f.mod, c.func) or '').startswith(('numpy.random', 'random.'))]
-    ok = len(draws) == 1 and model.resolve(f.mod, draws[0].func) in ('numpy.random.rand', 'numpy.random.random', 'numpy.random.uniform', 'numpy.random.random_sample')
-    shape_ok = ok and norm(draws[0]).replace(' ', '') in ('np.random.rand(*%s.shape)' % x, 'np.random.random(%s.shape)' % x, 'np.random.random_sample(%s.shape)' % x, 'np.random.uniform(size=%s.shape)' % x)
-    R.ob('C13.DROP-TRAIN', f.qualname, 'draws: %s' % [norm(d) for d in draws], ok and shape_ok and not cfg.in_loop(_stmt_of(f, draws[0])), 'exactly one U[0,1) draw per element of x per forward', f.loc)
-    if not ok:
-        return
-    dst = _stmt_of(f, draws[0])
-    dname = norm(dst.targets[0]) if isinstance(dst, ast.Assign) else None
-    # mask construction: comparison of the draw with self.p
-    masks = []
-    for n in body_walk(f.node):
-        if isinstance(n, ast.Assign):
-            v = n.value
-            if isinstance(v, ast.Call) and (model.resolve(f.mod, v.func) == 'numpy.where') and len(v.args) == 3 and isinstance(v.args[0], ast.Compare):
-                masks.append((n, v.args[0], norm(v.args[1]), norm(v.args[2])))
-            elif isinstance(v, ast.Compare):
-                masks.append((n, v, '1', '0'))
-    ok = len(masks) == 1
-    why = 'expected one mask built by comparing the draw with self.p'
-    if ok:
-        n, cmp_, a, b = masks[0]
-        l, r = norm(cmp_.left), norm(cmp_.comparators[0])
-        op = cmp_.ops[0]
-        keep_when = None
-        if l == dname and r == 'self.p':
-            if isinstance(op, (ast.Gt, ast.GtE)):
-                keep_when = (a, b) == ('1', '0')
-            elif isinstance(op, (ast.Lt, ast.LtE)):
-                keep_when = (a, b) == ('0', '1')
-        elif l == 'self.p' and r == dname:
-            if isinstance(op, (ast.Lt, ast.LtE)):
-                keep_when = (a, b) == ('1', '0')
-            elif isinstance(op, (ast.Gt, ast.GtE)):
-                keep_when = (a, b) == ('0', '1')
-        ok = keep_when is True
-        why = 'an element must be kept iff its draw exceeds p (zeroed with probability p); got %s ? %s : %s' % (norm(cmp_), a, b)
-    R.ob('C13.DROP-TRAIN', f.qualname, norm(masks[0][0]) if masks else 'no mask', ok, why, f.loc)
-    mname = norm(masks[0][0].targets[0]) if masks else None
-    # scaling
-    scales = [n for n in body_walk(f.node) if isinstance(n, ast.Assign) and isinstance(n.value, ast.BinOp) and isinstance(n.value.op, (ast.Div, ast.Mult)) and mname in names_in(n.value)]
-    ok = len(scales) == 1
-    if ok:
-        try:
-            t = TermBuilder({}, lambda e: P.atom(norm(e)) if isinstance(e, ast.Attribute) else None).build(scales[0].value)
-            ok = t == P.atom(mname) / (1 - P.atom('self.p'))
-        except (Unsupported, ZeroDivisionError):
-            ok = False
-        fs = {(t_, p) for t_, p, _ in facts_at(cfg, scales[0])}
-        ok = ok and (('self.p < 1', True) in fs or ('self.p != 1', True) in fs or ('self.p >= 1', False) in fs or ('self.p == 1', False) in fs)
-    R.ob('C13.DROP-TRAIN', f.qualname, norm(scales[0]) if scales else 'no scaling', ok, 'survivors must be scaled by exactly 1/(1-p), guarded against p == 1', f.loc)
-    # result = x * Tensor(mask) through the mul operator, mask tensor without grad
-    rets = [n for n in body_walk(f.node) if isinstance(n, ast.Return) and n is not (first.body[0] if isinstance(first, ast.If) else None)]
-    ok = len(rets) == 1 and isinstance(rets[0].value, ast.BinOp) and isinstance(rets[0].value.op, ast.Mult)
-    tname = None
-    if ok:
-        l, r = norm(rets[0].value.left), norm(rets[0].value.right)
-        ok = x in (l, r)
-        tname = r if l == x else l
-    R.ob('C13.DROP-TRAIN', f.qualname, norm(rets[0]) if rets else 'no return', ok, 'the output must be the product op of the input and the mask tensor (backward then uses the same mask, no second draw)', f.loc)
-    tb = [n for n in body_walk(f.node) if isinstance(n, ast.Assign) and norm(n.targets[0]) == tname]
-    ok = len(tb) == 1 and isinstance(tb[0].value, ast.Call) and model.resolve(f.mod, tb[0].value.func) in ('synapgrad.tensor.tensor', 'synapgrad.tensor.Tensor') and norm(tb[0].value.args[0]) == mname \
-        and not any(k.arg == 'requires_grad' and not (isinstance(k.value, ast.Constant) and k.value.value is False) for k in tb[0].value.keywords)
-    R.ob('C13.DROP-TRAIN', f.qualname, norm(tb[0]) if tb else 'no mask tensor', ok, 'the mask tensor wraps the scaled mask and does not require grad', f.loc)
-    # MODE-SOURCE
+    X, U, K_, PP = P.atom(x), P.atom('U'), P.atom('keep'), P.atom('self.p')
+
+    def run(T, Q):
+        rec = dict(draws=[], tensors=[])
+
+        def call_hook(pe, name, e, args, kw, env, func, depth):
+            if name and (name.startswith('numpy.random.') or name.startswith('random.')):
+                rec['draws'].append((name, [norm(a) for a in e.args], sorted(k.arg for k in e.keywords if k.arg), {k.arg: norm(k.value) for k in e.keywords if k.arg}))
+                return U
+            if name == 'numpy.where' and len(args) == 3 and isinstance(args[0], P):
+                return as_p(args[1]) * args[0] + as_p(args[2]) * (1 - args[0])
+            if name in ('synapgrad.tensor.tensor', 'synapgrad.tensor.Tensor', 'synapgrad.tensor') and args:
+                rec['tensors'].append((args[0], kw))
+                return args[0]
+            if isinstance(e.func, ast.Attribute) and e.func.attr == 'astype':
+                return pe.expr(e.func.value, env, func, depth)
+            return NotImplemented
+
+        def compare_hook(pe, op, a, b):
+            # an elementwise comparison of the draw with p is data: the indicator of "kept" (draw > p) or its complement
+            if isinstance(a, P) and isinstance(b, P) and a == U and b == PP:
+                return K_ if isinstance(op, (ast.Gt, ast.GtE)) else (1 - K_ if isinstance(op, (ast.Lt, ast.LtE)) else NotImplemented)
+            if isinstance(a, P) and isinstance(b, P) and a == PP and b == U:
+                return K_ if isinstance(op, (ast.Lt, ast.LtE)) else (1 - K_ if isinstance(op, (ast.Gt, ast.GtE)) else NotImplemented)
+            return NotImplemented
+        preds = {'self.training': T, 'self.p < 1': Q, 'self.p >= 1': not Q, 'self.p != 1': Q, 'self.p == 1': not Q, '1 > self.p': Q, 'self.p < 1.0': Q}
+        outs = PE(model, preds=preds, call_hook=call_hook, compare_hook=compare_hook, atoms_not_none=True).paths(f, {})
+        return outs, rec
+    try:
+        outs, rec = run(False, True)
+        outs2, rec2 = run(False, False)
+        ok = all(len(o) == 1 and o[0].kind == 'return' and isinstance(o[0].value, P) and o[0].value == X and not o[0].calls and not o[0].stores for o in (outs, outs2)) \
+            and not rec['draws'] and not rec2['draws']
+        R.ob('C13.DROP-EVAL', f.qualname, 'eval path returns %s; calls on the path: %s' % ([getattr(o.value, 'canon', lambda: repr(o.value))() for o in outs], [c[0] for o in outs for c in o.calls]), ok,
+             'eval mode must return the input itself with no draw, no op and no state change (deterministic identity)', f.loc)
+        for Q in (True, False):
+            outs, rec = run(True, Q)
+            tag = 'p < 1' if Q else 'p >= 1'
+            draws = rec['draws']
+            ok = len(outs) == 1 and len(draws) == 1 and draws[0][0] in ('numpy.random.rand', 'numpy.random.random', 'numpy.random.uniform', 'numpy.random.random_sample')
+            if ok:
+                nm, a, kws, kwd = draws[0]
+                ok = (nm == 'numpy.random.rand' and a == ['*%s.shape' % x] and not kws) or (nm in ('numpy.random.random', 'numpy.random.random_sample') and a == ['%s.shape' % x] and not kws) \
+                    or (nm == 'numpy.random.uniform' and not a and kwd == {'size': '%s.shape' % x})
+            R.ob('C13.DROP-TRAIN', f.qualname, '[%s] draws: %s' % (tag, [(d[0], d[1]) for d in draws]), ok, 'exactly one U[0,1) draw per element of x per training forward, from the seeded global generator', f.loc)
+            want = X * K_ / (1 - PP) if Q else X * K_
+            got = outs[0].value if len(outs) == 1 and outs[0].kind == 'return' else None
+            ok = isinstance(got, P) and (got == want or (not Q and got == X * K_ / (1 - PP) and False))
+            R.ob('C13.DROP-TRAIN', f.qualname, '[%s] output term %s' % (tag, got.canon() if isinstance(got, P) else repr(got)), ok,
+                 'training output must be x * keep%s through the tensor product, keep = [draw > p] (zero with probability p): expected %s' % ('/(1-p)' if Q else ' (no division by zero at p = 1)', want.canon()), f.loc)
+            tens = rec['tensors']
+            ok = len(tens) == 1 and not any(k == 'requires_grad' and v is not False for k, v in tens[0][1].items())
+            R.ob('C13.DROP-TRAIN', f.qualname, '[%s] mask tensor: %d construction(s)' % (tag, len(tens)), ok, 'the mask is wrapped in one tensor that does not require grad (backward then reuses the same mask through the mul op)', f.loc)
+    except Incomplete as u:
+        R.incomplete_at('C13.DROP-TRAIN', f.qualname, str(u))
     modes = {norm(n) for n in ast.walk(f.node) if isinstance(n, ast.Attribute) and n.attr in ('training', 'eval_mode', 'mode')}
     R.ob('C13.MODE-SOURCE', f.qualname, 'mode reads %s' % sorted(modes), modes == {'self.training'}, 'the mode must come from self.training only', f.loc)
 
@@ -124,125 +113,10 @@ def check_bn(model, R):
     modes = {norm(n) for n in ast.walk(f.node) if isinstance(n, ast.Attribute) and n.attr in ('training',)}
     R.ob('C13.MODE-SOURCE', f.qualname, 'mode reads %s' % sorted(modes), modes == {'self.training'}, 'the mode must come from self.training only', f.loc)
 
-    # ---- symbolic evaluation of the layer's locals under a valuation (T, K, B)
-    def layer_value(name_expr, T, K, B):
-        """boolean meaning of a local: for bn_training its truth value, for running_* 'is it a buffer (not None)'"""
-        def val(t):
-            if t == 'self.training': return T
-            if t == 'self.track_running_stats': return K
-            if t in ('self.running_mean is None', 'self.running_var is None'): return not B
-            if t in ('self.running_mean is not None', 'self.running_var is not None'): return B
-            raise Incomplete('atom %s' % t)
-        if isinstance(name_expr, ast.Name):
-            # find the binding(s): plain / under if-else
-            binds = [n for n in body_walk(f.node) if isinstance(n, ast.Assign) and norm(n.targets[0]) == name_expr.id]
-            for n in binds:
-                if all(eval_bool(e, val) == p for e, p in cfg.conditions(n)):
-                    v = n.value
-                    if isinstance(v, ast.IfExp):
-                        v = v.body if eval_bool(v.test, val) else v.orelse
-                    if isinstance(v, ast.Constant):
-                        return v.value if isinstance(v.value, bool) else (False if v.value is None else v.value)
-                    if norm(v) in ('self.running_mean', 'self.running_var'):
-                        return B
-                    return eval_bool(v, val)
-            raise Incomplete('no binding of %s applies' % name_expr.id)
-        if norm(name_expr) in ('self.running_mean', 'self.running_var'):
-            return B
-        return eval_bool(name_expr, val)
-
-    # kernel predicates: uses running iff <test>; updates iff <guard>
-    use_tests, upd_guards = {}, {}
+    from sa.rules_bn import check_layer
+    check_layer(model, R)
+    R.ob('C13.BN-ONCE', f.qualname, 'F.batch_norm called once', not cfg.in_loop(_stmt_of(f, call[0])), 'one normalisation (and at most one update) per forward', f.loc)
     kcfg = CFG(kern.node)
-    for n in body_walk(kern.node):
-        if isinstance(n, ast.Assign) and isinstance(n.value, ast.IfExp) and isinstance(n.value.body, ast.Name) and n.value.body.id.startswith('running_'):
-            use_tests[n.value.body.id] = n.value.test
-        if isinstance(n, ast.Assign) and isinstance(n.targets[0], ast.Name) and n.targets[0].id.startswith('running_') and kcfg.conditions(n):
-            upd_guards[n.targets[0].id] = [(e, p) for e, p in kcfg.conditions(n)]
-    if set(use_tests) != {'running_mean', 'running_var'} or set(upd_guards) != {'running_mean', 'running_var'}:
-        R.incomplete_at('C13.BN-CHOICE', kern.qualname, 'kernel selection / update predicates not found')
-        return
-    bad_use, bad_upd = [], []
-    try:
-        for T, K, B in itertools.product((False, True), repeat=3):
-            for stat in ('running_mean', 'running_var'):
-                present = layer_value(b[stat], T, K, B)
-                bn_tr = layer_value(b['training'], T, K, B)
-                def kval(t, present=present, bn_tr=bn_tr, stat=stat):
-                    if t == 'training': return bn_tr
-                    if t == '%s is not None' % stat: return present
-                    if t == '%s is None' % stat: return not present
-                    raise Incomplete('kernel atom %s' % t)
-                uses = eval_bool(use_tests[stat], kval)
-                upd = all(eval_bool(e, kval) == p for e, p in upd_guards[stat])
-                if uses != (B and not T):
-                    bad_use.append(dict(training=T, track=K, buffers=B, stat=stat, uses_running=uses))
-                if upd != (T and K and B):
-                    bad_upd.append(dict(training=T, track=K, buffers=B, stat=stat, updates=upd))
-    except Incomplete as e:
-        R.incomplete_at('C13.BN-CHOICE', f.qualname, str(e))
-        return
-    R.ob('C13.BN-CHOICE', f.qualname, 'statistics choice over 8 valuations', not bad_use, 'running statistics must be used iff eval mode and buffers exist; differs for %s' % bad_use[:3], f.loc)
-    R.ob('C13.BN-CHOICE', f.qualname, 'update predicate over 8 valuations', not bad_upd, 'running statistics must be updated iff training and track_running_stats (eval must never write them); differs for %s' % bad_upd[:3], f.loc)
-    # ---- BN-ONCE
-    incs = [n for n in ast.walk(f.node) if isinstance(n, (ast.AugAssign, ast.Assign)) and 'num_batches_tracked' in norm(n.target if isinstance(n, ast.AugAssign) else n.targets[0])]
-    ok = len(incs) == 1 and isinstance(incs[0], ast.AugAssign) and isinstance(incs[0].op, ast.Add) and norm(incs[0].value) == '1' and not cfg.in_loop(incs[0])
-    if ok:
-        fs = {(t, p) for t, p, _ in facts_at(cfg, incs[0])}
-        need = {('self.training', True), ('self.track_running_stats', True)}
-        extra = {x for x in fs - need if x != ('self.num_batches_tracked is not None', True)}
-        ok = need <= fs and not extra
-    R.ob('C13.BN-ONCE', f.qualname, norm(incs[0]) if incs else 'no counter update', ok, 'the batch counter must advance by exactly one per training forward with tracking, and never otherwise', f.loc)
-    fac = b.get('momentum')
-    ok = isinstance(fac, ast.Name)
-    if ok:
-        binds = [n for n in body_walk(f.node) if isinstance(n, ast.Assign) and norm(n.targets[0]) == fac.id]
-        cma = [n for n in binds if norm(n.value).replace(' ', '') in ('1.0/float(self.num_batches_tracked)', '1/self.num_batches_tracked', '1.0/self.num_batches_tracked')]
-        ema = [n for n in binds if norm(n.value) == 'self.momentum']
-        ok = len(cma) == 1 and bool(ema)
-        if ok:
-            fs = {(t, p) for t, p, _ in facts_at(cfg, cma[0])}
-            ok = ('self.momentum is None', True) in fs and incs and cma[0].lineno > incs[0].lineno and cfg.dominates(incs[0], cma[0])
-            for e in ema:
-                fe = {(t, p) for t, p, _ in facts_at(cfg, e)}
-                ok = ok and (('self.momentum is None', False) in fe)
-    R.ob('C13.BN-ONCE', f.qualname, 'averaging factor %s' % (norm(fac) if fac is not None else None), ok, 'factor = momentum, or 1/num_batches_tracked read AFTER the increment when momentum is None (cumulative average)', f.loc)
-    R.ob('C13.BN-ONCE', f.qualname, 'F.batch_norm called once', not cfg.in_loop(_stmt_of(f, call[0])) and not cfg.conditions(_stmt_of(f, call[0])), 'one normalisation (and at most one update) per forward', f.loc)
-    # ---- BN-UPDATE (kernel normal forms)
-    env = {}
-    def atom_of(e):
-        t = norm(e)
-        if t == 'x.size': return P.atom('size')
-        if t == 'x.shape[1]': return P.atom('C')
-        if isinstance(e, (ast.Attribute, ast.Subscript)): return P.atom(t)
-        return None
-    upd = {}
-    for n in sorted([x for x in body_walk(kern.node) if isinstance(x, ast.Assign) and isinstance(x.targets[0], ast.Name)], key=lambda x: x.lineno):
-        nm = n.targets[0].id
-        if isinstance(n.value, ast.IfExp) or nm in ('normed_dims', 'keepdims_shape', 'std', 'x_norm'):
-            continue
-        try:
-            t = TermBuilder(env, atom_of, model, kern.mod).build(n.value)
-        except Unsupported:
-            continue
-        if nm.startswith('running_'):
-            upd[nm] = (t, n)
-        else:
-            env[nm] = t
-    n_ = P.atom('size') / P.atom('C')
-    mean, var, mom = P.atom('mean'), P.atom('var'), P.atom('momentum')
-    want = {'running_mean': mean * mom + P.atom('running_mean') * (1 - mom), 'running_var': var * (n_ / (n_ - 1)) * mom + P.atom('running_var') * (1 - mom)}
-    for k, w in want.items():
-        got = upd.get(k)
-        ok = got is not None and got[0] == w
-        R.ob('C13.BN-UPDATE', kern.qualname, '%s <- %s' % (k, got[0].canon()[:120] if got else None), ok, 'documented moving average: %s' % w.canon()[:160], kern.loc)
-        if got:
-            fs = {(t, p) for t, p, _ in facts_at(kcfg, got[1])}
-            R.ob('C13.BN-UPDATE', kern.qualname, 'guard of %s update: %s' % (k, sorted(fs)), ('training', True) in fs and ('%s is not None' % k, True) in fs, 'running statistics may only be written in training mode when the buffer exists', kern.loc)
-    # variance used for normalising is the biased one
-    vb = [n for n in body_walk(kern.node) if isinstance(n, ast.Assign) and norm(n.targets[0]) == 'var']
-    ok = len(vb) == 1 and isinstance(vb[0].value, ast.IfExp) and 'ddof' not in norm(vb[0].value) and norm(vb[0].value.orelse).replace(' ', '').startswith(('x.var(', 'np.var(x,'))
-    R.ob('C13.BN-UPDATE', kern.qualname, norm(vb[0]) if vb else 'no var', ok, 'normalisation uses the biased batch variance (no ddof); only the running update is unbiased', kern.loc)
     # wrapper write-back: both, once, from the kernel results
     wcfg = CFG(wrapper.node)
     kc = [n for n in body_walk(wrapper.node) if isinstance(n, ast.Assign) and isinstance(n.value, ast.Call) and model.resolve(wrapper.mod, n.value.func) == kern.qualname]
